@@ -137,6 +137,31 @@ CHECKS.update({
             "not an enumeration.", "DESIGN.md §4 C13"),
 })
 
+CHECKS.update({
+    "C08": ("exploration", "bounded-exhaustive metamorphic enumeration read(write(x)) ~ x over constructor-built data spaces through every writer x reader pair, and all short texts through both readers against a datum-grammar recogniser",
+            "Data are built inside Scheme by constructors (never through the reader): doubles by bit pattern over an exponent x mantissa "
+            "boundary lattice incl. subnormals, infinities, NaNs; every Unicode scalar value as character, 1-character string and "
+            "1-character symbol; all strings and symbols up to length 3 over a 20-character quoting alphabet; integer/rational lattices; a "
+            "complex grid; small bytevectors; all trees to a depth; all rooted graphs of <= 3 (4 thorough) pair/vector nodes incl. sharing and "
+            "cycles. Each is written by native write, (scheme write) write and write-shared; every distinct text is read by native read and "
+            "(scheme read) and compared with the original by a structural comparison in the driver (flonums by their 64 bits, graphs by "
+            "bisimulation). All texts up to length 4 over a 30-symbol reader alphabet: where a conservative recogniser of the R7RS 7.1 grammar "
+            "says the text is a datum, both readers must return structurally equal values; elsewhere only totality is required.",
+            "The recogniser is conservative (texts it does not recognise are only checked for totality); write-simple on cyclic data is "
+            "excluded (non-terminating by specification).", "DESIGN.md §4 C08"),
+    "C12": ("model_checking", "explicit-state breadth-first exploration of string operation histories on the real implementation against a list-of-code-points model, de-duplicated on observed representation facts",
+            "Initial states: every content of length <= 3 (4 thorough) over {1,2,3,4-byte characters} x 15 construction routes (literal, "
+            "make-string, string, list->string, string-append, substring (offset strings), string-copy, utf8->string, ports, symbol->string, "
+            "utf8->string! sharing a bytevector at an offset, ...). From every state every operation with every in-range argument "
+            "(string-set! with width change, string-fill!, string-copy! incl. overlapping self-copy, substring, append, list/vector/utf8 "
+            "round trips with ranges, string ports incl. a real file, cursors, comparisons, immutable strings) is applied; histories of length "
+            "<= 2 (3 thorough), de-duplicated on (code points, byte length, store length, offset, immutable flag, producer class) as observed "
+            "on the implementation. After every step the code point list, length and bytes must equal the model and be well-formed UTF-8; "
+            "run under ASan with the heap slack poisoned. Plus all 1 112 064 scalar values through char/string/utf8/port round trips with a "
+            "per-block checksum, and all triples over 21 contents for the ordering predicates.",
+            "Alphabet of 4+4 characters; successors holding an alternate character are checked but not expanded (symmetry).", "DESIGN.md §4 C12"),
+})
+
 NOT_YET = {}
 
 
